@@ -1,10 +1,13 @@
 /-
-`build_string_value` and `validate_unicode_escapes` on the pair tree of ANY legal normal string literal (helper lemmas for
-Props/C07 `string_decode_general`): the builder maps every item to `SItem.decode` (what `value.rs` computes: the character
-itself, the simple escape, `char::from_u32(u32::from_str_radix(digits, 16))`), and `validate_unicode_escapes` reports the
-first `\u` escape whose digits denote no Unicode scalar value (`firstBadItem`).
+`build_string_value` and `validate_unicode_escapes` (both as repaired by fff8e9c: surrogate pairs) on the pair tree of ANY
+legal normal string literal (helper lemmas for Props/C07 `string_decode_general`): the builder's loop is `decodeItems` on
+the items (a `\uXXXX` lead immediately followed by a `\uXXXX` trail is one supplementary character, every other item is
+`SItem.decode`: the character itself, the simple escape, `char::from_u32(u32::from_str_radix(digits, 16))`), and
+`validate_unicode_escapes` reports `scanItems` (a pending lead that is not followed by a trail, a trail without lead, a
+`\u{…}` that denotes no scalar value).
 -/
 import NitroVerif.Lemmas.ParseMoreStr
+import NitroVerif.Lemmas.ParseMoreStrLoop
 namespace NitroVerif.StringParse
 open NitroVerif.Peg NitroVerif.Gen NitroVerif.Gen.Parts NitroVerif.Build NitroVerif.Spec.Lex NitroVerif.TypeParse
 open NitroVerif.ParseText NitroVerif.ValueParse
@@ -16,36 +19,9 @@ def SItem.decode : SItem → M Char
   | .u4 a b c d => do charFromU32 (← parseHexU32 [a, b, c, d])
   | .ubrace ds => do charFromU32 (← parseHexU32 ds)
 
-/-- the item is a `\u` escape that denotes no Unicode scalar value (what `validate_unicode_escapes` rejects) -/
-def SItem.bad : SItem → Bool
-  | .u4 a b c d => !escapeDenotesChar [a, b, c, d]
-  | .ubrace ds => !escapeDenotesChar ds
-  | _ => false
-
-/-- offset of the first offending escape of a literal body written at `p` -/
-def firstBadItem : List SItem → Nat → Option Nat
-  | [], _ => none
-  | it :: its, p => if it.bad then some p else firstBadItem its (p + it.text.length)
-
 theorem escaped_ok {e : Char} (h : [e] ∈ escLetters) : ∃ c, escapedChar ['\\', e] = .ok c := by
   simp only [escLetters, List.mem_cons, List.cons.injEq, and_true, List.not_mem_nil, or_false] at h
   rcases h with rfl | rfl | rfl | rfl | rfl | rfl | rfl | rfl <;> exact ⟨_, rfl⟩
-
-/-- an item that is not rejected decodes to a character, and conversely -/
-theorem decode_ok_iff (it : SItem) (hok : it.Ok) : (∃ c, it.decode = .ok c) ↔ it.bad = false := by
-  cases it with
-  | plain c => simp [SItem.decode, SItem.bad]
-  | esc e => simp only [SItem.decode, SItem.bad, iff_true]; exact escaped_ok hok
-  | u4 a b c d =>
-    simp only [SItem.decode, SItem.bad, escapeDenotesChar, bind, Except.bind]
-    cases parseHexU32 [a, b, c, d] with
-    | error e => simp
-    | ok n => by_cases hv : validScalar n <;> simp [charFromU32, hv]
-  | ubrace ds =>
-    simp only [SItem.decode, SItem.bad, escapeDenotesChar, bind, Except.bind]
-    cases parseHexU32 ds with
-    | error e => simp
-    | ok n => by_cases hv : validScalar n <;> simp [charFromU32, hv]
 
 theorem decodeChar_item {inp : List Char} (it : SItem) (hok : it.Ok) {a : Nat} {r : List Char}
     (h : inp.drop a = it.text ++ r) : decodeChar (Ctx.spec inp) (it.pair a) = it.decode := by
@@ -80,123 +56,346 @@ theorem drop_after_item {inp : List Char} {a : Nat} {t r : List Char} (h : inp.d
     inp.drop (a + t.length) = r := by
   rw [← List.drop_drop, h]; simp
 
-theorem mapM_litPairs {inp : List Char} : ∀ (its : List SItem), AllOk its → ∀ (a : Nat) (r : List Char),
-    inp.drop a = litText its ++ r → (litPairs its a).mapM (decodeChar (Ctx.spec inp)) = its.mapM SItem.decode := by
+/-! ### the builder's loop on items -/
+
+/-- `characters.peek().and_then(trailing_surrogate)` on items -/
+def peekItem : List SItem → M (Option Nat)
+  | .u4 a b c d :: _ => do
+    let n ← parseHexU32 [a, b, c, d]
+    .ok (if isTrailSurrogate n then some n else none)
+  | _ => .ok none
+
+/-- what the loop does after a `\uXXXX` item with code `code`, given what it peeked -/
+def u4ArmI (dec : Bool → M (List Char)) (code : Nat) : Option Nat → M (List Char)
+  | some t =>
+    if isLeadSurrogate code then do
+      let c ← charFromU32 (surrogatePairCode code t)
+      (c :: ·) <$> dec true
+    else do
+      let c ← charFromU32 code
+      (c :: ·) <$> dec false
+  | none => do
+    let c ← charFromU32 code
+    (c :: ·) <$> dec false
+
+/-- the loop of `build_string_value` (fix fff8e9c) on the items of a literal; `skip`: the head is a trailing surrogate that
+    was consumed together with its lead -/
+def decodeItems : Bool → List SItem → M (List Char)
+  | _, [] => .ok []
+  | true, _ :: rest => decodeItems false rest
+  | false, it :: rest =>
+    match it with
+    | .u4 a b c d => do
+      let code ← parseHexU32 [a, b, c, d]
+      let tr ← peekItem rest
+      u4ArmI (fun sk => decodeItems sk rest) code tr
+    | _ => do
+      let ch ← it.decode
+      (ch :: ·) <$> decodeItems false rest
+
+theorem u4Arm_eq (ctx : Ctx) (code : Nat) (rest : List Pair) (tr : Option Nat) :
+    u4Arm ctx code rest tr = u4ArmI (fun sk => decodeChars ctx sk rest) code tr := by
+  cases tr <;> rfl
+
+theorem item_child {inp : List Char} (it : SItem) (a : Nat) :
+    ∃ ch, onlyChildOf OC_StringCharacter "StringCharacter" (it.pair a) = .ok ch ∧ onlyChild (it.pair a) = .ok ch ∧
+      (it.pair a).children = [ch] ∧ ch.start = a ∧
+      (ch.rule = R.EscapedUnicode4 ↔ ∃ x y z w, it = .u4 x y z w) ∧
+      (ch.rule = R.EscapedUnicodeBrace ↔ ∃ ds, it = .ubrace ds) ∧ ch.stop = a + it.text.length := by
+  cases it with
+  | plain c =>
+    exact ⟨.mk R.NormalStringCharacter a (a + 1) [], by simp [SItem.pair, onlyChildOf, onlyChild, Pair.children, Pair.rule,
+      OC_StringCharacter, bind, Except.bind], rfl, rfl, rfl, by simp [Pair.rule, R.NormalStringCharacter, R.EscapedUnicode4],
+      by simp [Pair.rule, R.NormalStringCharacter, R.EscapedUnicodeBrace], by simp [Pair.stop, SItem.text]⟩
+  | esc e =>
+    exact ⟨.mk R.EscapedCharacter a (a + 2) [], by simp [SItem.pair, onlyChildOf, onlyChild, Pair.children, Pair.rule,
+      OC_StringCharacter, bind, Except.bind], rfl, rfl, rfl, by simp [Pair.rule, R.EscapedCharacter, R.EscapedUnicode4],
+      by simp [Pair.rule, R.EscapedCharacter, R.EscapedUnicodeBrace], by simp [Pair.stop, SItem.text]⟩
+  | u4 x y z w =>
+    exact ⟨.mk R.EscapedUnicode4 a (a + 6) [], by simp [SItem.pair, onlyChildOf, onlyChild, Pair.children, Pair.rule,
+      OC_StringCharacter, bind, Except.bind], rfl, rfl, rfl, by simp [Pair.rule],
+      by simp [Pair.rule, R.EscapedUnicode4, R.EscapedUnicodeBrace], by simp [Pair.stop, SItem.text]⟩
+  | ubrace ds =>
+    exact ⟨.mk R.EscapedUnicodeBrace a (a + (ds.length + 4)) [.mk R.EscapedUnicodeBraceDigits (a + 3) (a + 3 + ds.length) []],
+      by simp [SItem.pair, onlyChildOf, onlyChild, Pair.children, Pair.rule, OC_StringCharacter, bind, Except.bind],
+      rfl, rfl, rfl, by simp [Pair.rule, R.EscapedUnicode4, R.EscapedUnicodeBrace], by simp [Pair.rule],
+      by simp [Pair.stop, SItem.text] <;> omega⟩
+
+theorem unicode4Code_item {inp : List Char} {x y z w : Char} {a : Nat} {r : List Char}
+    (h : inp.drop a = (SItem.u4 x y z w).text ++ r) :
+    unicode4Code (Ctx.spec inp) (.mk R.EscapedUnicode4 a (a + 6) []) = parseHexU32 [x, y, z, w] := by
+  have hs : slice inp a (a + 6) = ['\\', 'u', x, y, z, w] := by
+    simpa using slice_of_drop (t := ['\\', 'u', x, y, z, w]) (r := r) (by simpa [SItem.text] using h)
+  simp [unicode4Code, asStr, Ctx.spec, Pair.start, Pair.stop, hs]
+
+theorem peekTrailing_litPairs {inp : List Char} (its : List SItem) (a : Nat) (r : List Char)
+    (h : inp.drop a = litText its ++ r) : peekTrailing (Ctx.spec inp) (litPairs its a) = peekItem its := by
+  cases its with
+  | nil => rfl
+  | cons it rest =>
+    rw [litText_cons, List.append_assoc] at h
+    cases it with
+    | u4 x y z w =>
+      simp only [litPairs]
+      rw [peekTrailing_cons _ _ (ch := .mk R.EscapedUnicode4 a (a + 6) []) rfl]
+      rw [trailingSurrogate, if_neg (by simp [Pair.rule]), unicode4Code_item h]
+      rfl
+    | plain c =>
+      simp only [litPairs]
+      rw [peekTrailing_cons _ _ (ch := .mk R.NormalStringCharacter a (a + 1) []) rfl,
+        trailingSurrogate_other _ (by simp [Pair.rule, R.NormalStringCharacter, R.EscapedUnicode4])]
+      rfl
+    | esc e =>
+      simp only [litPairs]
+      rw [peekTrailing_cons _ _ (ch := .mk R.EscapedCharacter a (a + 2) []) rfl,
+        trailingSurrogate_other _ (by simp [Pair.rule, R.EscapedCharacter, R.EscapedUnicode4])]
+      rfl
+    | ubrace ds =>
+      simp only [litPairs]
+      rw [peekTrailing_cons _ _ (ch := .mk R.EscapedUnicodeBrace a (a + (ds.length + 4))
+          [.mk R.EscapedUnicodeBraceDigits (a + 3) (a + 3 + ds.length) []]) rfl,
+        trailingSurrogate_other _ (by simp [Pair.rule, R.EscapedUnicodeBrace, R.EscapedUnicode4])]
+      rfl
+
+theorem decodeItems_other (it : SItem) (rest : List SItem) (h : ∀ x y z w, it ≠ .u4 x y z w) :
+    decodeItems false (it :: rest) = (do let ch ← it.decode; (ch :: ·) <$> decodeItems false rest) := by
+  cases it with
+  | u4 x y z w => exact absurd rfl (h x y z w)
+  | plain c => rw [decodeItems]; exact fun _ _ _ _ h => nomatch h
+  | esc e => rw [decodeItems]; exact fun _ _ _ _ h => nomatch h
+  | ubrace ds => rw [decodeItems]; exact fun _ _ _ _ h => nomatch h
+
+/-- the builder's loop on the pair tree of a literal body is `decodeItems` on its items -/
+theorem decodeChars_litPairs {inp : List Char} : ∀ (its : List SItem), AllOk its → ∀ (a : Nat) (r : List Char) (skip : Bool),
+    inp.drop a = litText its ++ r → decodeChars (Ctx.spec inp) skip (litPairs its a) = decodeItems skip its := by
   intro its
   induction its with
-  | nil => intro _ a r _; rfl
+  | nil => intro _ a r skip _; cases skip <;> rfl
   | cons it its ih =>
-    intro hok a r h
+    intro hok a r skip h
     rw [litText_cons, List.append_assoc] at h
-    have h1 := decodeChar_item it (hok it (List.mem_cons_self ..)) h
-    have h2 := ih (fun x hx => hok x (List.mem_cons_of_mem _ hx)) _ r (drop_after_item h)
-    simp only [litPairs, List.mapM_cons, h1, h2]
+    have ih' := fun sk => ih (fun x hx => hok x (List.mem_cons_of_mem _ hx)) _ r sk (drop_after_item h)
+    cases skip with
+    | true =>
+      simp only [litPairs]
+      rw [decodeChars_skip, ih' false, decodeItems]
+    | false =>
+      obtain ⟨ch, hoc, _, _, _, hu, _, _⟩ := item_child (inp := inp) it a
+      by_cases hr : ch.rule = R.EscapedUnicode4
+      · obtain ⟨x, y, z, w, rfl⟩ := hu.mp hr
+        simp only [litPairs]
+        have hoc' : onlyChildOf OC_StringCharacter "StringCharacter" ((SItem.u4 x y z w).pair a) =
+            .ok (.mk R.EscapedUnicode4 a (a + 6) []) := by
+          simp [SItem.pair, onlyChildOf, onlyChild, Pair.children, Pair.rule, OC_StringCharacter, bind, Except.bind]
+        have hcode := unicode4Code_item h
+        have hpk := peekTrailing_litPairs its (a + (SItem.u4 x y z w).text.length) r (drop_after_item h)
+        rw [decodeItems]
+        cases hp : parseHexU32 [x, y, z, w] with
+        | error e =>
+          rw [hp] at hcode
+          rw [decodeChars_err_code _ _ hoc' rfl hcode]
+          rfl
+        | ok code =>
+          rw [hp] at hcode
+          cases hq : peekItem its with
+          | error e =>
+            rw [hq] at hpk
+            rw [decodeChars_err_peek _ _ hoc' rfl hcode hpk]
+            rfl
+          | ok tr =>
+            rw [hq] at hpk
+            rw [decodeChars_u4 _ _ hoc' rfl hcode hpk, u4Arm_eq]
+            show _ = u4ArmI (fun sk => decodeItems sk its) code tr
+            congr 1
+            funext sk
+            exact ih' sk
+      · have hnu : ∀ x y z w, it ≠ .u4 x y z w := fun x y z w e => hr (hu.mpr ⟨x, y, z, w, e⟩)
+        simp only [litPairs]
+        rw [decodeChars_other _ _ hoc hr, decodeChar_item it (hok it (List.mem_cons_self ..)) h, ih' false,
+          decodeItems_other it its hnu]
 
-/-- `build_string_value` on the pair tree of the literal: the items decoded one by one, and the position of the literal -/
+/-- `build_string_value` on the pair tree of the literal: `decodeItems`, and the position of the literal -/
 theorem stringValueChars_litPair {inp : List Char} (it : SItem) (its : List SItem) (hok : AllOk (it :: its)) (p : Nat)
     (rest : List Char) (h : inp.drop p = '"' :: (litText (it :: its) ++ '"' :: rest)) :
     stringValueChars (Ctx.spec inp) (litPair (it :: its) p) =
-      ((it :: its).mapM SItem.decode).map (fun s => (s, { line := (lineCol inp p).1, col := (lineCol inp p).2 })) := by
+      (decodeItems false (it :: its)).map (fun s => (s, { line := (lineCol inp p).1, col := (lineCol inp p).2 })) := by
   have h' : inp.drop (p + 1) = litText (it :: its) ++ ('"' :: rest) := by
     rw [← List.drop_drop, h]; simp
-  have hm := mapM_litPairs (inp := inp) (it :: its) hok (p + 1) _ h'
+  have hm := decodeChars_litPairs (inp := inp) (it :: its) hok (p + 1) _ false h'
   simp only [stringValueChars, litPair, onlyChildOf, onlyChild, Pair.children, Pair.rule, OC_StringValue, bind, Except.bind,
     toPos, Ctx.spec, Pair.start]
   simp only [R.NormalStringValue, R.EmptyStringValue, R.BlockStringValue] at hm ⊢
   simp only [Ctx.spec] at hm
   simp [hm]
-  cases List.mapM SItem.decode (it :: its) <;> rfl
+  cases decodeItems false (it :: its) <;> rfl
 
-/-! ### `validate_unicode_escapes` -/
+/-! ### `validate_unicode_escapes` on items -/
 
-theorem badEscape_item {inp : List Char} (it : SItem) {a : Nat} {r : List Char} (h : inp.drop a = it.text ++ r) :
-    ((flat (it.pair a)).find? (badEscape (Ctx.spec inp))).map Pair.start = if it.bad then some a else none := by
-  cases it with
-  | plain c =>
-    simp [SItem.pair, flat, flatList, badEscape, Pair.rule, SItem.bad, R.EscapedUnicode4, R.EscapedUnicodeBrace,
-      R.StringCharacter, R.NormalStringCharacter]
-  | esc e =>
-    simp [SItem.pair, flat, flatList, badEscape, Pair.rule, SItem.bad, R.EscapedUnicode4, R.EscapedUnicodeBrace,
-      R.StringCharacter, R.EscapedCharacter]
-  | u4 x y z w =>
-    have hs : slice inp a (a + 6) = ['\\', 'u', x, y, z, w] := by
-      simpa using slice_of_drop (t := ['\\', 'u', x, y, z, w]) (r := r) (by simpa [SItem.text] using h)
-    by_cases hb : escapeDenotesChar [x, y, z, w] = true
-    · simp [SItem.pair, flat, flatList, badEscape, Pair.rule, SItem.bad, R.EscapedUnicode4, R.EscapedUnicodeBrace,
-        R.StringCharacter, asStr, Ctx.spec, Pair.start, Pair.stop, hs, hb]
-    · simp [SItem.pair, flat, flatList, badEscape, Pair.rule, SItem.bad, R.EscapedUnicode4, R.EscapedUnicodeBrace,
-        R.StringCharacter, asStr, Ctx.spec, Pair.start, Pair.stop, hs, hb]
-  | ubrace ds =>
-    have hs : slice inp a (a + (ds.length + 4)) = '\\' :: 'u' :: '{' :: (ds ++ ['}']) := by
-      have := slice_of_drop (t := '\\' :: 'u' :: '{' :: (ds ++ ['}'])) (r := r) (by simpa [SItem.text] using h)
-      simpa using this
-    have hd : (('\\' :: 'u' :: '{' :: (ds ++ ['}'])).drop 3).take (('\\' :: 'u' :: '{' :: (ds ++ ['}'])).length - 4) = ds := by
-      simp
-    by_cases hb : escapeDenotesChar ds = true
-    · simp [SItem.pair, flat, flatList, badEscape, Pair.rule, SItem.bad, R.EscapedUnicode4, R.EscapedUnicodeBrace,
-        R.StringCharacter, R.EscapedUnicodeBraceDigits, asStr, Ctx.spec, Pair.start, Pair.stop, hs, hb]
-    · simp [SItem.pair, flat, flatList, badEscape, Pair.rule, SItem.bad, R.EscapedUnicode4, R.EscapedUnicodeBrace,
-        R.StringCharacter, R.EscapedUnicodeBraceDigits, asStr, Ctx.spec, Pair.start, Pair.stop, hs, hb]
+/-- the loop of `validate_unicode_escapes` (fix fff8e9c) on the items of ONE literal body written at offset `p`; `pending` =
+    offset of a leading surrogate that waits for its trailing surrogate; result: offset of the escape reported as invalid -/
+def scanItems : Option Nat → List SItem → Nat → Option Nat
+  | pending, [], _ => pending
+  | pending, it :: rest, p =>
+    match it with
+    | .u4 a b c d =>
+      match pending, hexOk [a, b, c, d] with
+      | some l, some n => if isTrailSurrogate n then scanItems none rest (p + 6) else some l
+      | some l, none => some l
+      | none, some n =>
+        if isLeadSurrogate n then scanItems (some p) rest (p + 6)
+        else if validScalar n then scanItems none rest (p + 6) else some p
+      | none, none => some p
+    | .ubrace ds =>
+      match pending with
+      | some l => some l
+      | none => if escapeDenotesChar ds then scanItems none rest (p + (ds.length + 4)) else some p
+    | .plain _ =>
+      match pending with
+      | some l => some l
+      | none => scanItems none rest (p + 1)
+    | .esc _ =>
+      match pending with
+      | some l => some l
+      | none => scanItems none rest (p + 2)
 
-theorem find_litPairs {inp : List Char} : ∀ (its : List SItem) (a : Nat) (r : List Char),
+theorem flatMap_litPairs_cons {inp : List Char} (it : SItem) (its : List SItem) (a : Nat) :
+    ∃ ch, (litPairs (it :: its) a).flatMap Pair.children = ch :: (litPairs its (a + it.text.length)).flatMap Pair.children ∧
+      (it.pair a).children = [ch] := by
+  obtain ⟨ch, _, _, hc, _⟩ := item_child (inp := inp) it a
+  exact ⟨ch, by simp [litPairs, List.flatMap_cons, hc], hc⟩
+
+theorem scanEscapes_litPairs {inp : List Char} : ∀ (its : List SItem) (a : Nat) (r : List Char) (pending : Option Pair),
     inp.drop a = litText its ++ r →
-    ((flatList (litPairs its a)).find? (badEscape (Ctx.spec inp))).map Pair.start = firstBadItem its a := by
+    (scanEscapes (Ctx.spec inp) pending ((litPairs its a).flatMap Pair.children)).map Pair.start =
+      scanItems (pending.map Pair.start) its a := by
   intro its
   induction its with
-  | nil => intro a r _; rfl
+  | nil => intro a r pending _; cases pending <;> rfl
   | cons it its ih =>
-    intro a r h
+    intro a r pending h
     rw [litText_cons, List.append_assoc] at h
-    have h1 := badEscape_item it h
-    have h2 := ih _ r (drop_after_item h)
-    simp only [litPairs, flatList, List.find?_append, firstBadItem]
-    cases hf : (flat (it.pair a)).find? (badEscape (Ctx.spec inp)) with
-    | some q =>
-      rw [hf] at h1
-      cases hb : it.bad with
-      | true => simpa [hb] using h1
-      | false => simp [hb] at h1
-    | none =>
-      rw [hf] at h1
-      cases hb : it.bad with
-      | true => simp [hb] at h1
-      | false => simpa [hb] using h2
+    have ih' := fun pd => ih (a + it.text.length) r pd (drop_after_item h)
+    cases it with
+    | plain c =>
+      have e : (litPairs (.plain c :: its) a).flatMap Pair.children =
+          .mk R.NormalStringCharacter a (a + 1) [] :: (litPairs its (a + (SItem.plain c).text.length)).flatMap Pair.children := by
+        simp [litPairs, List.flatMap_cons, SItem.pair, Pair.children]
+      rw [e]
+      cases pending with
+      | some l => simp [scanEscapes, scanItems, Pair.rule, R.NormalStringCharacter, R.EscapedUnicode4, R.EscapedUnicodeBrace]
+      | none =>
+        have := ih' none
+        simp only [SItem.text, List.length_cons, List.length_nil] at this
+        simpa [scanEscapes, scanItems, Pair.rule, R.NormalStringCharacter, R.EscapedUnicode4, R.EscapedUnicodeBrace,
+          SItem.text] using this
+    | esc e' =>
+      have e : (litPairs (.esc e' :: its) a).flatMap Pair.children =
+          .mk R.EscapedCharacter a (a + 2) [] :: (litPairs its (a + (SItem.esc e').text.length)).flatMap Pair.children := by
+        simp [litPairs, List.flatMap_cons, SItem.pair, Pair.children]
+      rw [e]
+      cases pending with
+      | some l => simp [scanEscapes, scanItems, Pair.rule, R.EscapedCharacter, R.EscapedUnicode4, R.EscapedUnicodeBrace]
+      | none =>
+        have := ih' none
+        simp only [SItem.text, List.length_cons, List.length_nil] at this
+        simpa [scanEscapes, scanItems, Pair.rule, R.EscapedCharacter, R.EscapedUnicode4, R.EscapedUnicodeBrace,
+          SItem.text] using this
+    | u4 x y z w =>
+      have e : (litPairs (.u4 x y z w :: its) a).flatMap Pair.children =
+          .mk R.EscapedUnicode4 a (a + 6) [] :: (litPairs its (a + (SItem.u4 x y z w).text.length)).flatMap Pair.children := by
+        simp [litPairs, List.flatMap_cons, SItem.pair, Pair.children]
+      rw [e]
+      have hs : slice inp a (a + 6) = ['\\', 'u', x, y, z, w] := by
+        simpa using slice_of_drop (t := ['\\', 'u', x, y, z, w]) (r := litText its ++ r) (by simpa [SItem.text] using h)
+      have hd : ((asStr (Ctx.spec inp) (.mk R.EscapedUnicode4 a (a + 6) [])).drop 2) = [x, y, z, w] := by
+        simp [asStr, Ctx.spec, Pair.start, Pair.stop, hs]
+      have h6 : a + (SItem.u4 x y z w).text.length = a + 6 := by simp [SItem.text]
+      rw [h6] at ih' ⊢
+      simp only [scanEscapes, Pair.rule, if_true, hd, scanItems]
+      cases pending with
+      | some l =>
+        cases hx : hexOk [x, y, z, w] with
+        | none => rfl
+        | some n =>
+          dsimp only [Option.map]
+          by_cases ht : isTrailSurrogate n = true
+          · rw [if_pos ht, if_pos ht]; exact ih' none
+          · rw [if_neg ht, if_neg ht] <;> try rfl
+      | none =>
+        cases hx : hexOk [x, y, z, w] with
+        | none => rfl
+        | some n =>
+          dsimp only [Option.map]
+          by_cases hl : isLeadSurrogate n = true
+          · rw [if_pos hl, if_pos hl]; exact ih' (some (.mk R.EscapedUnicode4 a (a + 6) []))
+          · rw [if_neg hl, if_neg hl]
+            by_cases hv : validScalar n = true
+            · rw [if_pos hv, if_pos hv]; exact ih' none
+            · rw [if_neg hv, if_neg hv] <;> try rfl
+    | ubrace ds =>
+      have e : (litPairs (.ubrace ds :: its) a).flatMap Pair.children =
+          .mk R.EscapedUnicodeBrace a (a + (ds.length + 4)) [.mk R.EscapedUnicodeBraceDigits (a + 3) (a + 3 + ds.length) []] ::
+            (litPairs its (a + (SItem.ubrace ds).text.length)).flatMap Pair.children := by
+        simp [litPairs, List.flatMap_cons, SItem.pair, Pair.children]
+      rw [e]
+      have hs : slice inp a (a + (ds.length + 4)) = '\\' :: 'u' :: '{' :: (ds ++ ['}']) := by
+        have := slice_of_drop (t := '\\' :: 'u' :: '{' :: (ds ++ ['}'])) (r := litText its ++ r) (by simpa [SItem.text] using h)
+        simpa using this
+      have hdg : ((asStr (Ctx.spec inp) (.mk R.EscapedUnicodeBrace a (a + (ds.length + 4))
+          [.mk R.EscapedUnicodeBraceDigits (a + 3) (a + 3 + ds.length) []])).drop 3).take
+          ((asStr (Ctx.spec inp) (.mk R.EscapedUnicodeBrace a (a + (ds.length + 4))
+            [.mk R.EscapedUnicodeBraceDigits (a + 3) (a + 3 + ds.length) []])).length - 4) = ds := by
+        simp [asStr, Ctx.spec, Pair.start, Pair.stop, hs]
+      have hl : a + (SItem.ubrace ds).text.length = a + (ds.length + 4) := by simp [SItem.text] <;> omega
+      rw [hl] at ih' ⊢
+      cases pending with
+      | some l => simp [scanEscapes, scanItems, Pair.rule, R.EscapedUnicode4, R.EscapedUnicodeBrace]
+      | none =>
+        simp only [scanEscapes, Pair.rule, R.EscapedUnicode4, R.EscapedUnicodeBrace, scanItems, hdg]
+        by_cases hb : escapeDenotesChar ds = true
+        · simp only [hb, if_true]; exact ih' none
+        · simp only [hb, if_false]; rfl
 
-/-- `validate_unicode_escapes` on the pair tree of the literal: the first `\u` escape that denotes no scalar value -/
+theorem litPairs_no_string {inp : List Char} : ∀ (its : List SItem) (a : Nat), ∀ q ∈ flatList (litPairs its a),
+    q.rule ≠ R.NormalStringValue := by
+  intro its
+  induction its with
+  | nil => intro a q hq; simp [litPairs, flatList] at hq
+  | cons it its ih =>
+    intro a q hq
+    simp only [litPairs, flatList, List.mem_append] at hq
+    rcases hq with hq | hq
+    · cases it <;> simp [SItem.pair, flat, flatList] at hq <;>
+        (rcases hq with rfl | rfl | rfl <;> simp [Pair.rule, R.NormalStringValue, R.StringCharacter, R.NormalStringCharacter,
+          R.EscapedCharacter, R.EscapedUnicode4, R.EscapedUnicodeBrace, R.EscapedUnicodeBraceDigits])
+    · exact ih _ q hq
+
+/-- `validate_unicode_escapes` on the pair tree of the literal: the loop over its items -/
 theorem firstBadEscape_litPair {inp : List Char} (its : List SItem) (p : Nat) (rest : List Char)
     (h : inp.drop p = '"' :: (litText its ++ '"' :: rest)) :
-    firstBadEscape (Ctx.spec inp) [litPair its p] = firstBadItem its (p + 1) := by
+    firstBadEscape (Ctx.spec inp) [litPair its p] = scanItems none its (p + 1) := by
   have h' : inp.drop (p + 1) = litText its ++ ('"' :: rest) := by
     rw [← List.drop_drop, h]; simp
-  have := find_litPairs (inp := inp) its (p + 1) _ h'
-  simp only [firstBadEscape, litPair, flatList, flat, List.append_nil, List.find?_cons]
-  simp only [badEscape, Pair.rule, R.StringValue, R.NormalStringValue, R.EscapedUnicode4, R.EscapedUnicodeBrace]
-  simpa using this
-
-theorem firstBadItem_none {its : List SItem} (h : ∀ it ∈ its, it.bad = false) : ∀ p, firstBadItem its p = none := by
-  induction its with
-  | nil => intro p; rfl
-  | cons it its ih =>
-    intro p
-    simp [firstBadItem, h it (List.mem_cons_self ..), ih (fun x hx => h x (List.mem_cons_of_mem _ hx))]
-
-/-- all items decode iff none is rejected -/
-theorem mapM_decode_ok {its : List SItem} (hok : AllOk its) {s : List Char} (h : its.mapM SItem.decode = .ok s) :
-    ∀ it ∈ its, it.bad = false := by
-  induction its generalizing s with
-  | nil => intro it hit; cases hit
-  | cons x xs ih =>
-    intro it hit
-    simp only [List.mapM_cons, bind, Except.bind] at h
-    cases hx : x.decode with
-    | error e => simp [hx] at h
-    | ok c =>
-      rw [hx] at h
-      cases hxs : xs.mapM SItem.decode with
-      | error e => simp [hxs] at h
-      | ok cs =>
-        rcases List.mem_cons.mp hit with rfl | hit
-        · exact (decode_ok_iff _ (hok _ (List.mem_cons_self ..))).mp ⟨c, hx⟩
-        · exact ih (fun y hy => hok y (List.mem_cons_of_mem _ hy)) hxs it hit
+  have hscan := scanEscapes_litPairs (inp := inp) its (p + 1) _ none h'
+  have hrest : (flatList (litPairs its (p + 1))).findSome? (fun q =>
+      if q.rule = R.NormalStringValue then (scanEscapes (Ctx.spec inp) none (stringCharacters q)).map Pair.start else none) = none := by
+    rw [List.findSome?_eq_none_iff]
+    intro q hq
+    rw [if_neg (litPairs_no_string (inp := inp) its (p + 1) q hq)]
+  have hflat : flatList [litPair its p] =
+      litPair its p :: .mk R.NormalStringValue p (p + ((litText its).length + 2)) (litPairs its (p + 1)) ::
+        flatList (litPairs its (p + 1)) := by
+    simp [litPair, flatList, flat]
+  have h1 : (litPair its p).rule ≠ R.NormalStringValue := by simp [litPair, Pair.rule, R.StringValue, R.NormalStringValue]
+  unfold firstBadEscape
+  have h2 : (Pair.mk R.NormalStringValue p (p + ((litText its).length + 2)) (litPairs its (p + 1))).rule =
+      R.NormalStringValue := rfl
+  have e : stringCharacters (.mk R.NormalStringValue p (p + ((litText its).length + 2)) (litPairs its (p + 1))) =
+      (litPairs its (p + 1)).flatMap Pair.children := rfl
+  have hscan' : (scanEscapes (Ctx.spec inp) none ((litPairs its (p + 1)).flatMap Pair.children)).map Pair.start =
+      scanItems none its (p + 1) := hscan
+  rw [hflat, List.findSome?_cons, if_neg h1, List.findSome?_cons, if_pos h2, hrest, e, hscan']
+  generalize scanItems none its (p + 1) = x
+  cases x <;> rfl
 
 end NitroVerif.StringParse
